@@ -3,6 +3,7 @@ package props
 import (
 	"bytes"
 	"fmt"
+	"strings"
 
 	"github.com/pion/rtcp"
 
@@ -21,7 +22,7 @@ func init() {
 		RaceProcs:  4,
 		Technique:  "runtime dispatch-table oracle over all 256x32x2 header combinations, foreign-type rejection matrix over all ordered type pairs, self-dispatch of Marshal output",
 		Rule: "dispatch: all 256 packet types x 32 count/FMT values x P in {0,1}, registered combinations with reference-valid bodies consistent with the count, all others with 8 body shapes (0..6 words, zero / ones / random) expected back as RawPacket verbatim; " +
-			"foreign: every ordered pair (T,U), T one of the 14 registered decoders, U one of 16 classes (13 other registered types, the library-dialect SLI, raw frames with unregistered FMT under 205/206, raw frames with unregistered PT) x generated well-formed U encodings; " +
+			"foreign: every ordered pair (T,U), T one of the 14 registered decoders, U one of 17 classes (13 other registered types, the library-dialect SLI, REMB packets whose octets are also a complete transport-cc body, raw frames with unregistered FMT under 205/206, raw frames with unregistered PT) x generated well-formed U encodings; " +
 			"accepted-type: every single-bit flip beyond the header's first two octets and every aligned word replaced by capitals / magic words in valid frames of 16 registered combinations: an accepted single frame must have the registered type; " +
 			"cold start: child processes whose first decodes are made by 2..32 goroutines at once, compared with a sequential child, with and without the race detector; " +
 			"non-trivial = a frame of at least 4 octets was dispatched or handed to a foreign decoder; distinct by digest of (aspect, decoder, octets)",
@@ -258,6 +259,52 @@ func runC07(c *core.Ctx) {
 		e, _ := ref.Encode(gen.Packet(r, gen.SLI, gen.Opts{}), ref.Lib)
 		return e.B
 	}})
+	// a REMB whose octets are also a complete transport-cc body: read as transport-cc, "REMB" is base
+	// sequence 0x5245 / status count 0x4d42 = 19778, and the SSRC words are status chunks announcing
+	// exactly that many not-received packets (so no delta octets are needed). Only the packet type
+	// tells the two apart.
+	classes = append(classes, uclass{"ReceiverEstimatedMaximumBitrate(body valid as transport-cc)", func(r *core.Rand) []byte {
+		var chunks []uint16
+		left := 19778
+		for left > 0 {
+			switch r.Intn(4) {
+			case 0: // one-bit vector of 14 not-received
+				chunks = append(chunks, 0x8000)
+				left -= 14
+			case 1: // two-bit vector of 7 not-received
+				chunks = append(chunks, 0xC000)
+				left -= 7
+			default:
+				run := 1 + r.Intn(8191)
+				if run > left || r.Chance(1, 3) {
+					run = left
+					if run > 8191 {
+						run = 8191
+					}
+				}
+				chunks = append(chunks, uint16(run))
+				left -= run
+			}
+			if len(chunks) > 400 {
+				chunks = append(chunks[:0], 0x1FFF, 0x1FFF, 0x0D44)
+				left = 0
+			}
+		}
+		if len(chunks)%2 == 1 {
+			chunks = append(chunks, 0)
+		}
+		n := len(chunks) / 2
+		if n > 255 {
+			return nil
+		}
+		sender := r.U32()
+		b := []byte{0x8F, 206, 0, 0, byte(sender >> 24), byte(sender >> 16), byte(sender >> 8), byte(sender), 0, 0, 0, 0, 'R', 'E', 'M', 'B', byte(n), r.U8(), r.U8(), r.U8()}
+		for _, c := range chunks {
+			b = append(b, byte(c>>8), byte(c))
+		}
+		gen.FitLength(b)
+		return b
+	}})
 	classes = append(classes, uclass{"raw-unregistered-FMT-under-205/206", func(r *core.Rand) []byte {
 		for {
 			rp := gen.RawValue(r)
@@ -282,8 +329,8 @@ func runC07(c *core.Ctx) {
 		pair := cs.Idx % (nT * nU)
 		T := gen.Registered[pair/nU]
 		U := classes[pair%nU]
-		if U.name == T.String() {
-			return
+		if U.name == T.String() || (T == gen.REMB && strings.HasPrefix(U.name, "ReceiverEstimatedMaximumBitrate(")) {
+			return // a decoder's own packets are not foreign to it
 		}
 		for i := 0; i < 50; i++ {
 			in := U.gen(r)
